@@ -193,7 +193,7 @@ def norm_attr_value(k, v):
 
 BOOLEAN = {'hidden', 'checked', 'selected', 'autoplay', 'controls', 'loop', 'muted', 'compact', 'novalidate', 'noresize',
            'autofocus', 'disabled', 'formnovalidate', 'multiple', 'required', 'declare', 'reversed', 'async', 'defer',
-           'nowrap', 'default'}
+           'nowrap', 'default', 'readonly'}
 
 
 def attrs_match(spec_map, lib_pairs, loose_bool=False):
